@@ -677,3 +677,17 @@ package bitcoin_reader
 //@   loop 3
 //@     modifies allchans(interface{}), allchans(error)
 //@     invariant sent(q) == atentry(sent(q)) && !closed(q) && complete == atentry(complete) && abort == atentry(abort)
+
+// nextNode (C13): the node handed out for requests is one of the manager's nodes and was ready (accepted after
+// verification) and not stopped when it was chosen; indexes stay in range while stopped nodes are dropped.
+//@ pure func nodesOK(m *NodeManager) bool = forall(i, 0, len(m.nodes), m.nodes[i] != nil && m.nodes[i].node != nil && isflag(m.nodes[i].node.isReady) && isflag(m.nodes[i].node.isStopped)) && m.nextNodeOffset >= 0
+//@ func (*NodeManager).nextNode
+//@   requires m != nil && nodesOK(m)
+//@   ensures [C13.only-ready-nodes] result != nil ==> flag(result.isReady) && !flag(result.isStopped)
+//@   ensures [C13.node-of-manager] result != nil ==> exists(i, 0, len(m.nodes), m.nodes[i].node == result)
+//@   ensures [C13.nodes-kept-well-formed] nodesOK(m)
+//@   safety [C13]
+//@   modifies m.nodes, elems(m.nodes), m.nextNodeOffset, allof(BitcoinNode.Mutex), allelems(fmt.Stringer)
+//@   loop 1
+//@     modifies m.nodes, elems(m.nodes), m.nextNodeOffset, allof(BitcoinNode.Mutex), allelems(fmt.Stringer)
+//@     invariant nodesOK(m) && arr(m.nodes) == atentry(arr(m.nodes))
